@@ -128,15 +128,36 @@ def _put_image(rec, codes, force_both=False):
 
 # ------------------------------------------------------------------ observation (real code)
 def _path_input(style, path):
-    from maze_dataset.plotting.plot_maze import StyledPath
+    """the caller's argument for one path in the requested representation -> (argument, keyword arguments)"""
+    from maze_dataset.plotting.plot_maze import PathFormat, StyledPath
 
-    arr = np.array([[int(a), int(b)] for a, b in path])
+    cells = [[int(a), int(b)] for a, b in path]
+    arr = np.array(cells, dtype=np.int64).reshape(-1, 2)
     if style == "list":
-        return [(int(a), int(b)) for a, b in path], {}
+        return [(a, b) for a, b in cells], {}
+    if style == "list_lists":
+        return [[a, b] for a, b in cells], {}
+    if style == "list_np":  # numpy integers inside a list
+        return [(np.int64(a), np.int8(b)) for a, b in cells], {}
+    if style == "list_arrs":  # list of coordinate arrays
+        return [np.array([a, b]) for a, b in cells], {}
     if style == "array":
         return arr, {}
     if style == "array8":
         return arr.astype(np.int8), {}
+    if style == "array32":
+        return arr.astype(np.int32), {}
+    if style == "array_f":  # Fortran-ordered (not C-contiguous for >= 2 cells)
+        return np.asfortranarray(arr), {}
+    if style == "array8_f":
+        return np.asfortranarray(arr.astype(np.int8)), {}
+    if style in ("array_view", "styled_view"):  # non-contiguous view into a larger caller-owned array
+        big = np.full((2 * len(cells) + 1, 4), 99, dtype=np.int64)
+        big[1::2, 1:3] = arr
+        v = big[1::2, 1:3]
+        if style == "array_view":
+            return v, {}
+        return StyledPath(path=v, fmt="-", color="blue", line_width=1.5, quiver_kwargs=None), {}
     if style == "styled_line8":
         return StyledPath(path=arr.astype(np.int8), fmt="-", color="blue", line_width=1.5, quiver_kwargs=None), {}
     if style == "styled_quiver8":
@@ -149,25 +170,72 @@ def _path_input(style, path):
         return StyledPath(path=arr, fmt=":", color="green", line_width=2, quiver_kwargs={"width": 0.01}), {}
     if style == "styled_cmap":
         return StyledPath(path=arr, fmt=":", color="green", cmap="viridis", quiver_kwargs={"width": 0.01}), {}
+    if style == "styled_q0":  # falsy-but-meaningful options: empty quiver kwargs (= arrows with matplotlib's defaults), empty label
+        return StyledPath(path=arr, fmt=":", color="green", label="", quiver_kwargs={}), {}
+    if style == "styled_cmap0":
+        return StyledPath(path=arr, fmt=":", color="green", cmap="viridis", quiver_kwargs={}), {}
     if style == "fmt":
-        from maze_dataset.plotting.plot_maze import PathFormat
-
         return arr, dict(path_fmt=PathFormat(fmt="-.", color="purple", line_width=3.0))
+    if style == "fmt_q0":
+        return arr, dict(path_fmt=PathFormat(label="", quiver_kwargs={}))
     if style == "kw":
-        return [(int(a), int(b)) for a, b in path], dict(color="brown")
+        return [(a, b) for a, b in cells], dict(color="brown")
+    if style == "kw0":
+        return [(a, b) for a, b in cells], dict(color="brown", label="")
     raise ValueError(style)
+
+
+# ---- CLASS E: the caller's own mutable argument objects: deep snapshot, comparison, overwriting
+def _snap(o):
+    if isinstance(o, np.ndarray):
+        return ("a", str(o.dtype), tuple(o.shape), o.tolist())
+    if isinstance(o, (list, tuple)):
+        return ("l", type(o).__name__, [_snap(v) for v in o])
+    if isinstance(o, dict):
+        return ("d", sorted((str(k), _snap(v)) for k, v in o.items()))
+    return ("v", type(o).__name__, repr(o))
+
+
+def _scramble(o):
+    """overwrite a caller-owned object in place (after the call, before anything is read from the result)"""
+    try:
+        if isinstance(o, np.ndarray):
+            if o.dtype == bool:
+                o[...] = ~o
+            elif o.dtype.kind == "f":
+                o[...] = -777.25
+            else:
+                o[...] = -7
+        elif isinstance(o, list):
+            for v in o:
+                _scramble(v)
+            o.clear()
+        elif isinstance(o, dict):
+            for v in o.values():
+                _scramble(v)
+            o.clear()
+    except Exception:  # noqa: BLE001 - read-only argument: nothing to overwrite
+        pass
 
 
 def _expected(scn):
     tp, tpset, preds, marks = [], False, [], []
+    o = scn.get("nvopts") or {}
+    if scn["hasnv"]:  # add_node_values(target_token_coord=, preceeding_tokens_coords=) mark coordinates too
+        marks += ([o["target"]] if o.get("target") is not None else []) + list(o.get("prec") or [])
     for op, _style, payload in scn["ops"]:
         if op == "true":
             tp, tpset = payload, True
         elif op == "pred":
             preds.append(payload)
+        elif op == "pred_twice":  # ONE argument object added twice
+            preds += [payload, payload]
+        elif op == "true_and_pred":  # ONE argument object added as true path and as predicted path
+            tp, tpset = payload, True
+            preds.append(payload)
         elif op == "multi":
             preds += payload
-        elif op == "mark":
+        elif op in ("mark", "mark_arr"):
             marks += payload
     return tp, tpset, preds, marks
 
@@ -176,12 +244,67 @@ def _chain(path):
     return all(abs(a[0] - b[0]) + abs(a[1] - b[1]) == 1 for a, b in zip(path, path[1:]))
 
 
-def _build(scn, conn):
+def _pos(form, p):
+    p = [int(v) for v in p]
+    return {"array": np.array(p), "int8": np.array(p, dtype=np.int8), "tuple": tuple(p), "list": list(p)}[form or "array"]
+
+
+def _conn_arg(scn):
+    """the caller's connection list in the requested memory layout (CLASS G)"""
+    conn = np.array(scn["conn"], dtype=bool)
+    form = scn.get("connform", "c")
+    if form == "fortran":
+        return np.asfortranarray(conn)
+    if form == "view":
+        big = np.ones((2, 2 * conn.shape[1] + 1, conn.shape[2] + 2), dtype=bool)
+        big[:, 1::2, 1:-1] = conn
+        return big[:, 1::2, 1:-1]
+    return conn
+
+
+def _build(scn, conn, own=None):
+    """the maze object, through the plain constructor or (scn['via']) through the factories / with redundant
+    start_pos / end_pos / generation metadata (CLASS F); `own` collects the caller's mutable argument objects"""
+    own = own if own is not None else {}
+    via, ef = scn.get("via", "ctor"), scn.get("endform", "array")
+    extra = {}
+    if scn.get("meta"):
+        own["meta"] = extra["generation_meta"] = dict(func_name="gen_dfs", grid_shape=np.array(conn.shape[1:]), kwargs=dict(lst=[1, 2], nested=dict(a=0)), fully_connected=False)
     if scn["kind"] == "LatticeMaze":
-        return mz.LatticeMaze(connection_list=conn)
+        return mz.LatticeMaze(connection_list=conn, **extra)
     if scn["kind"] == "TargetedLatticeMaze":
-        return mz.TargetedLatticeMaze(connection_list=conn, start_pos=np.array(scn["start"]), end_pos=np.array(scn["end"]))
-    return mz.SolvedMaze(connection_list=conn, solution=np.array(scn["sol"]))
+        sp, ep = _pos(ef, scn["start"]), _pos(ef, scn["end"])
+        own["start"], own["end"] = sp, ep
+        if via == "factory":
+            return mz.TargetedLatticeMaze.from_lattice_maze(mz.LatticeMaze(connection_list=conn, **extra), sp, ep)
+        return mz.TargetedLatticeMaze(connection_list=conn, start_pos=sp, end_pos=ep, **extra)
+    sol = np.array(scn["sol"])
+    own["sol"] = sol
+    if via == "factory":
+        return mz.SolvedMaze.from_lattice_maze(mz.LatticeMaze(connection_list=conn, **extra), [tuple(int(v) for v in p) for p in scn["sol"]])
+    if via == "factory_targeted":
+        t = mz.TargetedLatticeMaze(connection_list=conn, start_pos=_pos(ef, scn["sol"][0]), end_pos=_pos(ef, scn["sol"][-1]), **extra)
+        return mz.SolvedMaze.from_targeted_lattice_maze(t, solution=sol)
+    if via == "ctor_se":  # redundant, agreeing start / end
+        return mz.SolvedMaze(connection_list=conn, solution=sol, start_pos=_pos(ef, scn["sol"][0]), end_pos=_pos(ef, scn["sol"][-1]), **extra)
+    return mz.SolvedMaze(connection_list=conn, solution=sol, **extra)
+
+
+def _nv_arg(codes, form):
+    a = np.array(codes, dtype=float) / 100.0
+    if form == "f32":
+        return a.astype(np.float32)
+    if form == "fortran":
+        return np.asfortranarray(a)
+    if form == "view":
+        big = np.full((2 * a.shape[0], a.shape[1] + 3), 55.5)
+        big[::2, 2:-1] = a
+        return big[::2, 2:-1]
+    return a
+
+
+def _ul_arg(scn):
+    return {"int": int, "np64": np.int64, "np32": np.int32}[scn.get("ulform", "int")](scn["ul"])
 
 
 def observe(scn):
